@@ -181,6 +181,12 @@ var c06Reqs = []c06Req{
 	{"only-b-lit", `{ onlyB echo(i:1) }`, "", nil, nil},
 	{"introspect", `{ __type(name:"Kind") { name kind } }`, "", nil, nil},
 	{"introspect-2", `{ __type(name:"Filter") { name kind } }`, "", nil, nil},
+	// literals that are invalid for their argument type (composite ones coerce
+	// to something non-nil all the same): the validation error of the request
+	{"bad-inputobj-literal", `{ echo(f:{min:"a", tags:3, kind:NOPE, zzz:1, st:5}) }`, "", nil, nil},
+	{"bad-inputobj-literal-2", `{ echo(f:{min:1, tags:[1, "t"]}) x1 }`, "", nil, nil},
+	{"bad-list-literal", `{ echo(l:[1, "two", 3]) }`, "", nil, nil},
+	{"bad-list-literal-2", `{ echo2(l:[1, 2.5]) echo(i:1) }`, "", nil, nil},
 	// one document in two layouts, with a field error: the error locations are
 	// those of the text that was sent
 	{"layout-flat", `{ x1 leafy { s sNN } x2 }`, "", nil, map[string]string{"R@leafy.sNN": FErr, "R@x2": FErr}},
